@@ -424,3 +424,14 @@ package PVM
 //@   ensures full: result != nil ==> registers[7] == FULL && account.ServiceInfo == old(account.ServiceInfo) && has(account.LookupDict, lookupKey) == old(has(account.LookupDict, lookupKey)) && frame_only(registers[7])
 //@   ensures added: result == nil ==> account.ServiceInfo.Items == old(account.ServiceInfo.Items) + itemFootprintItems && account.ServiceInfo.Bytes == old(account.ServiceInfo.Bytes) + itemFootprintOctets && has(account.LookupDict, lookupKey) && len(account.LookupDict[lookupKey]) == 0 && account.ServiceInfo.Balance == old(account.ServiceInfo.Balance)
 //@   assigns everything
+
+// ---- Memory.Read / Memory.Write: callers must have established the range with isReadable / isWriteable ----
+//@ pred range_mapped(m, start, n) = in_ram(start, n) && forall(q, int(start/4096), int((start+n-1)/4096)+1, has(m.Pages, uint32(q)) && m.Pages[uint32(q)] != nil && len(m.Pages[uint32(q)].Value) == 4096)
+//@ func (*Memory).Read
+//@   props C07 C33
+//@   requires mapped: m != nil && (offset == 0 || range_mapped(m, start, offset))
+//@   ensures len: uint64(len(result)) == offset && fresh(result)
+//@   loop copied#0
+//@     invariant progress: copied <= offset && offset != 0 && range_mapped(m, start, offset) && len(buffer) == int(offset) && fresh(buffer)
+//@     invariant page: copied == offset || (uint64(pageNumber)*4096 + pageIndex == start + copied && pageIndex < 4096)
+//@     invariant frame: frame_only()
